@@ -204,6 +204,82 @@ func checkInt(n int) {
 	}
 }
 
+// typed integer ranges: every int8 / uint8 value (incl. the maximum of the type), selected uint16 / int16
+// values, and huge 64-bit bounds of which only a prefix is consumed
+func typedInt[T interface {
+	~int8 | ~uint8 | ~int16 | ~uint16 | ~int32 | ~uint32 | ~int64 | ~uint64 | ~uint | ~uintptr | ~int
+}](name string, n T, maxPulls int) {
+	id := fmt.Sprintf("tint:%s:%v", name, n)
+	if !only(id) {
+		return
+	}
+	res.Eval(1)
+	var want, got []T
+	cnt := 0
+	// Go's `for i := range n` over an integer n: i = 0 .. n-1 in the type of n, nothing for n <= 0
+	// (a generic function cannot range over a type parameter without core type, so it is spelled out)
+	for i := T(0); i < n; i++ {
+		want = append(want, i)
+		cnt++
+		if cnt >= maxPulls {
+			break
+		}
+	}
+	p := safe(func() {
+		it := seq.NewIntegerIter(n)
+		pulls := 0
+		for it.MoveNext() {
+			got = append(got, it.Current().Key)
+			pulls++
+			if pulls >= maxPulls {
+				break
+			}
+		}
+		if pulls < maxPulls && len(want) >= maxPulls {
+			got = append(got, 0) // ended early
+		}
+	})
+	res.DistinctKey(id)
+	res.Count("typed_ints", 1)
+	if p != "" || fmt.Sprint(want) != fmt.Sprint(got) {
+		w, g := fmt.Sprint(want), fmt.Sprint(got)
+		if len(w) > 120 {
+			w = w[:60] + " … " + w[len(w)-50:]
+		}
+		if len(g) > 120 {
+			g = g[:60] + " … " + g[len(g)-50:]
+		}
+		res.Violate(id, "typed-int-keys", fmt.Sprintf("range %s(%v) (first %d pulls): native %d keys %s, NewIntegerIter %d keys %s panic=%q", name, n, maxPulls, len(want), w, len(got), g, p), map[string]any{"probe": "itermodel", "only": id})
+	}
+}
+
+func typedInts() {
+	for v := -128; v <= 127; v++ {
+		typedInt("int8", int8(v), 1000)
+	}
+	for v := 0; v <= 255; v++ {
+		typedInt("uint8", uint8(v), 1000)
+	}
+	for _, v := range []int{0, 1, 255, 256, 32767} {
+		typedInt("int16", int16(v), 40000)
+	}
+	for _, v := range []int{0, 1, 32768, 65534, 65535} {
+		typedInt("uint16", uint16(v), 70000)
+	}
+	type myInt int32
+	typedInt("myInt", myInt(5), 100)
+	// huge bounds: only a prefix is consumed (the loop is left by break)
+	typedInt("int64", int64(math.MaxInt64), 5)
+	typedInt("uint64", uint64(math.MaxUint64), 5)
+	typedInt("uint64", uint64(1)<<63, 5)
+	typedInt("uint64", uint64(1)<<63-1, 5)
+	typedInt("uint", uint(math.MaxUint), 5)
+	typedInt("uintptr", ^uintptr(0), 5)
+	typedInt("uint32", uint32(math.MaxUint32), 5)
+	typedInt("int32", int32(math.MinInt32), 5)
+	typedInt("int64", int64(math.MinInt64), 5)
+}
+
 // ---------------------------------------------------------------- slices
 
 // a mutation script step, applied after the body observed (k,v) at iteration number At
@@ -703,6 +779,7 @@ func main() {
 	for i := 0; i < 40; i++ {
 		checkInt(rng.Intn(5000) - 100)
 	}
+	typedInts()
 	allSlices(maxSl)
 	sliceOther()
 	allMaps(maxMap, rng, nRandMap)
